@@ -57,6 +57,12 @@ def family(name, n):
         return [], b'\x3f\xe1\x1f\x20' * (n // 2 + 1), {}
     if name == 'evicting-literals':
         return [b'\x3f\x45'], b'\x40\x01a\x01b' * n, {'limit': big}        # table of 100: every insertion evicts
+    if name == 'high-index-fields':        # 70 entries in the table, then fields with a two-octet index (ff 00 = index 127)
+        setup = b''.join(bytes([0x40, 0x01, 1 + i, 0x00]) for i in range(70))
+        return [setup], b'\xff\x00' * n, {'limit': big}
+    if name == 'high-index-literals':      # literal without indexing, two-octet name index (0f 70 = index 127), empty value
+        setup = b''.join(bytes([0x40, 0x01, 1 + i, 0x00]) for i in range(70))
+        return [setup], b'\x0f\x70\x00' * n, {'limit': big}
     if name == 'huffman-literals':
         return [], b'\x40\x81\x1f\x81\x1f' * n, {'limit': big}
     raise SystemExit('unknown family ' + name)
@@ -64,7 +70,7 @@ def family(name, n):
 
 FAMILIES = ['index-run', 'index-run-zero', 'namelen-run', 'valuelen-run', 'update-run', 'litname-index-run', 'plain-string',
             'huffman-string', 'indexed-fields', 'dyn-indexed-fields', 'inserted-literals', 'plain-literals', 'never-literals-idxname',
-            'size-updates', 'size-updates-2', 'evicting-literals', 'huffman-literals']
+            'size-updates', 'size-updates-2', 'evicting-literals', 'huffman-literals', 'high-index-fields', 'high-index-literals']
 
 
 def main():
